@@ -86,6 +86,7 @@ type PureFunc struct {
 	Params []Binder
 	Result TypeExpr
 	Body   Expr // nil for uninterpreted (ghost func)
+	Reads  []string // heap components an uninterpreted ghost function depends on (ghost state)
 	Opaque bool // uninterpreted symbol with a definitional axiom (E-matching anchor)
 	Pkg    string
 	File   string
@@ -217,10 +218,18 @@ func (cs *ContractSet) LoadContractFile(path, pkgPath string) error {
 			if w != "func" {
 				return fmt.Errorf("%s:%d: expected 'func' after %s", path, rc.line, kw)
 			}
+			var reads []string
+			if k := strings.Index(r2, " reads "); k > 0 && kw == "ghost" {
+				for _, x := range splitTop(r2[k+7:]) {
+					reads = append(reads, strings.TrimSpace(x))
+				}
+				r2 = strings.TrimSpace(r2[:k])
+			}
 			pf, err := parsePureSig(r2)
 			if err != nil {
 				return fmt.Errorf("%s:%d: %v", path, rc.line, err)
 			}
+			pf.Reads = reads
 			pf.Pkg, pf.File, pf.Line = pkgPath, path, rc.line
 			pf.Opaque = kw == "opaque"
 			if kw == "ghost" && pf.Body != nil {
